@@ -559,7 +559,8 @@ func deriveTripCount(loop *Loop) {
 			isDead := false
 			if isUpCounting {
 				// Condition: i < limit. Loop runs if Start < Limit.
-				if startC.Cmp(limitC) >= 0 {
+				// (with '<=' the loop still runs once when Start == Limit)
+				if c := startC.Cmp(limitC); c > 0 || (c == 0 && !isInclusive) {
 					// Condition is false immediately.
 					isDead = true
 				} else if stepC.Sign() <= 0 {
@@ -569,7 +570,7 @@ func deriveTripCount(loop *Loop) {
 				}
 			} else {
 				// Condition: i > limit. Loop runs if Start > Limit.
-				if startC.Cmp(limitC) <= 0 {
+				if c := startC.Cmp(limitC); c < 0 || (c == 0 && !isInclusive) {
 					isDead = true
 				} else if stepC.Sign() >= 0 {
 					// Start > Limit, but step is positive. Diverges.
